@@ -3,15 +3,18 @@
 # Rebuilds the harness (and, through path dependencies, whatever changed in
 # /repo's working tree) with hooks enabled, then runs the check.
 set -u
+ROOT="$(dirname "$(realpath "$0")")"
+export VERIF_DIR="${VERIF_DIR:-$ROOT}"
 export CARGO_NET_OFFLINE=true
-cd /verif/harness || exit 2
-if ! cargo build --quiet 2>/verif/target/last-build.log; then
-  # retry once non-quiet for the log
-  cargo build 2>&1 | tail -40 >&2
+TARGET="${CARGO_TARGET_DIR:-$ROOT/target}"
+cd "$ROOT/harness" || exit 2
+mkdir -p "$TARGET"
+if ! cargo build --quiet 2>"$TARGET/last-build.log"; then
+  tail -40 "$TARGET/last-build.log" >&2
   echo "INCONCLUSIVE build failed" >&2
   exit 2
 fi
-BIN=/verif/target/debug/sv
+BIN="$TARGET/debug/sv"
 if [ "${1:-}" = "replay" ]; then
   exec "$BIN" replay "$2"
 fi
